@@ -176,11 +176,11 @@ func (opinion VoteOpinion) String() string {
 }
 
 func (opinion VoteOpinion) Err() error {
-	opName := opinion.String()
-	if opName == "" {
-		return errors.New("vote opinion must be one of [UNKNOWN, POSITIVE, NEGATIVE, GIVEUP]")
+	switch opinion {
+	case OPIN_UNKNOWN, OPIN_POSITIVE, OPIN_NEGATIVE, OPIN_GIVEUP:
+		return nil
 	}
-	return nil
+	return errors.New("vote opinion must be one of [UNKNOWN, POSITIVE, NEGATIVE, GIVEUP]")
 }
 
 func (opinion VoteResult) String() string {
